@@ -70,6 +70,47 @@ def run(tier, seed):
                      {"kind": "vk-edge", "edge": e, "why": viol["why"]})
         os.remove(edges)
 
+    # ---- (ii) table level: the mechanism refines the plain map (VersionedTable.tla, exhaustive in a small scope) ...
+    vt_cfg = "MC_VT_quick.cfg" if tier == "quick" else "MC_VT.cfg"
+    r = tlc("VersionedTable.tla", vt_cfg, "vt_" + vt_cfg, workers=10, timeout=3000, xmx="16g")
+    cov["configs"][vt_cfg] = {"distinct": r["distinct"], "generated": r["generated"], "depth": r["depth"]}
+    states += r["distinct"]
+    trans += r["generated"]
+    if r["violated"]:
+        v.report("model:%s:%s" % (vt_cfg, r["violated"]), "VersionedTable.tla violates %s under %s" % (r["violated"], vt_cfg),
+                 {"tlc": common.tlc_tail(r, 80)})
+    elif not r["ok"]:
+        raise ToolError("TLC failed on %s:\n%s" % (vt_cfg, common.tlc_tail(r)))
+    # ... and schedules of the plain-map model (TableRef.tla, W = 10) on the real BlockCachedDatabase
+    nsched = 300 if tier == "quick" else 5000
+    raw = os.path.join(OUT, "tableref.txt")
+    r = tlc("TableRef.tla", "Sim_TableRef.cfg", "tableref", workers=4, timeout=900, simulate="num=%d" % (nsched // 4), seed=seed,
+            extra=["-depth", "70"], stdout_path=raw)
+    if r["error"] or r["violated"]:
+        raise ToolError("TableRef generation failed:\n" + common.tlc_tail(r))
+    sp = os.path.join(OUT, "table_sched.ndjson")
+    n = 0
+    with open(sp, "w") as f:
+        for line in open(raw):
+            if line.startswith('<<"SCHED", '):
+                steps = json.loads(json.loads(line.strip()[len('<<"SCHED", '):-2]))
+                if steps:
+                    n += 1
+                    f.write(json.dumps({"run": n, "steps": steps}) + "\n")
+    os.remove(raw)
+    rep = os.path.join(OUT, "table_report.json")
+    p = common.run_vh(["table", sp, rep], timeout=3000)
+    if p.returncode == 2:
+        raise ToolError("vh table failed: " + p.stderr[-1500:])
+    tj = json.load(open(rep))
+    cov["table_schedules"] = {k: tj[k] for k in ("runs", "steps", "crash_steps", "crashes_that_hit_a_write")}
+    edges_total += tj["runs"]
+    samples += tj["samples"][:1]
+    for viol in tj["violations"]:
+        op = viol["op"].get("op")
+        v.report("table:%s:%s" % (op, viol["why"].split("(")[0].split(" ")[0]), "BlockCachedDatabase: %s at step %d (%s)" % (viol["why"][:300], viol["step"], json.dumps(viol["op"])[:120]),
+                 {"kind": "table", "schedule": viol["schedule"], "step": viol["step"], "why": viol["why"]})
+
     cov.update({"states": max(states, 1), "transitions": max(trans, 1),
                 "traces_validated_against_impl": edges_total,
                 "samples": samples or ["none"],
@@ -97,5 +138,12 @@ def replay(path):
         p = common.run_vh(["vk-edges", tmp, 10, rep])
         print(open(rep).read())
         return p.returncode
-    print(json.dumps(obj, indent=1))
+    if rp.get("kind") == "table":
+        sp = os.path.join(OUT, "replay_table.ndjson")
+        open(sp, "w").write(json.dumps({"run": 1, "steps": rp["schedule"]}) + "\n")
+        rep = os.path.join(OUT, "replay_table.json")
+        p = common.run_vh(["table", sp, rep])
+        print(open(rep).read()[:3000])
+        return p.returncode
+    print(json.dumps(obj, indent=1)[:4000])
     return 0
